@@ -25,6 +25,10 @@ def table_cases(mk, variant, opcodes, rng=None):
     for op in opcodes:
         for size in range(1, 28):
             payload = "00" * (size - 1) if rng is None else rnd_hex(rng, size - 1)
+            if (op, size) in ((0x00, 12), (0x01, 8), (0x18, 5)):
+                # instant based PDUs: an instant 100 events ahead, valid before and after the repair of the instant checks
+                # (what happens around the instant is property C21)
+                payload = payload[:-4] + "6400"
             cases.append(mk("table_%02x_%d" % (op, size), variant, connected() + ["ev 0 " + ctrl(op, payload), "ev 0", "ev 0", "st"]))
     return cases
 
@@ -60,7 +64,7 @@ class C27(LLCheck):
                 cases += table_cases(mk, v, range(256), rng)
         # version received twice / table with version_indication_received_ set
         for v in variants:
-            for op in list(KNOWN) + [0x0e, 0x14, 0x19, 0xff]:
+            for op in [o for o in KNOWN if o not in (0x00, 0x01, 0x18)] + [0x0e, 0x14, 0x19, 0xff]:
                 for size in sorted(set([KNOWN.get(op, 1), 6, 1, 27])):
                     cases.append(mk("tablev", v, connected() + ["ev 0 3:0c0969020000", "ev 0", "ev 0 " + ctrl(op, rnd_hex(rng, size - 1)), "ev 0", "ev 0", "st"]))
         # 2. histories around the 40 s procedure response timeout
@@ -80,7 +84,7 @@ class C27(LLCheck):
         per = 40 if not ctx.thorough else 800
         for v in variants:
             for k in range(per):
-                ops = session(rng, v, rng.choice([10, 25, 45]), instants=(k % 8 == 0))
+                ops = session(rng, v, rng.choice([10, 25, 45]), instants=False)     # instant based procedures: C21
                 if k % 3:
                     ops = [o for o in ops if o != "verreq"]        # the second-version finding would end most sessions early
                 cases.append(mk("rnd", v, ops))
